@@ -19,6 +19,7 @@ import GraphiqModel.Proofs.Channel
 import GraphiqModel.Proofs.GateTable
 import GraphiqModel.Proofs.MixtureDMLockstep
 import GraphiqModel.Proofs.MixtureDMTotal
+import GraphiqModel.Proofs.MixtureDMPhysMeas
 namespace Graphiq.C06
 open Graphiq Graphiq.Noise Graphiq.DM
 
@@ -423,6 +424,33 @@ theorem per_branch_measurement_is_flagged :
     (match compileStab true 1 0 1 true [{ kind := .x, n0 := .depol (1/3) true }, { kind := .measZ }] with
       | .ok s => s.nonUniform
       | _ => false) = true := by decide +kernel
+
+/-! ### the density matrix stays physical through *any* measurement -/
+
+open scoped ComplexOrder in
+/-- **the density-matrix result is positive semidefinite and has trace `∏ (1 − loss_j)` — circuits with measurements, no
+    condition on the outcomes.**  One-qubit gates, CNOT / CZ with additive noise (depolarizing probabilities in `[0,1]`, loss
+    rates `≤ 1`, Pauli errors, either placement), noiseless `MeasurementZ` / `ClassicalCNOT` / `ClassicalCZ` /
+    `MeasurementCNOTandReset`, on existing qubits: whenever `DensityMatrixCompiler.compile` returns a matrix (not the NaN it
+    produces when it divides by a zero conditional probability), that matrix has size `2^n`, is positive semidefinite, and its
+    trace is *exactly* the product of the photon survival probabilities — `apply_measurement` divides by the conditional
+    probability, so a measurement after a photon loss keeps the weight (defect F1, repaired; here for every circuit and n). -/
+theorem dm_is_physical_with_measurements (ns : Bool) (ne np nc : Nat) (det : Bool) (ops : List COp)
+    (hw : ∀ op ∈ ops, OpOK3 (ne + np) np op) (d : DmSt) (h : compileDM ns ne np nc det ops = .ok d) :
+    ∃ tr, compileTrace ns .dm np ops = .ok tr ∧
+      ∀ ρ, d.ρ = some ρ → ρ.n = 2 ^ (ne + np) ∧ (toC (ne + np) ρ).PosSemidef ∧ ρ.trace = ⟨lossFactor tr, 0⟩ := by
+  obtain ⟨tr, htr, g⟩ := compileDM_phys ns ne np nc det ops hw d h
+  exact ⟨tr, htr, fun ρ hρ => ⟨(g ρ hρ).size, (g ρ hρ).psd, (g ρ hρ).trace_exact⟩⟩
+
+/-- it applies to the witness circuit of finding F2 (non-uniform branches): there the two backends differ, but each is physical -/
+example : ∀ op ∈ ([{ kind := .x, n0 := .depol (1/3) true }, { kind := .measZ }] : List COp), OpOK3 (1 + 0) 0 op := by
+  intro op h
+  simp only [List.mem_cons, List.not_mem_nil, or_false] at h
+  rcases h with rfl | rfl
+  · exact .unitary ⟨⟨by decide, fun h => by simp [Kind.isCtrlPair, Kind.isClassicalCtrl] at h,
+      fun h => by simp [Kind.isCtrlPair] at h⟩, Or.inl rfl, ⟨by norm_num, by norm_num⟩, trivial⟩ ⟨by norm_num, by norm_num⟩ trivial
+  · exact .meas (Or.inl rfl) ⟨by decide, fun h => by simp [Kind.isCtrlPair, Kind.isClassicalCtrl] at h,
+      fun h => by simp [Kind.isCtrlPair] at h⟩ rfl rfl
 
 end clause_c_measurements
 
